@@ -12,7 +12,11 @@ package main
 //@ effects_only
 //@ effect io_only os.Open, io/ioutil.ReadAll, ioutil.ReadAll, (*os.File).Close, <dynamic call gen>, panic, string
 
+// C08 (mode switches): the file type named on the command line selects the back end - "go" the Go template builder,
+// "typescript" the TypeScript builder - and both get the same input path and output path (arguments 1 and 2)
 //@ func cmdGenerate
 //@ props C19 C08
-//@ effects_only
+//@ requires len(args) >= 3
 //@ effect io_only genCommonFunc, main.genCommonFunc, fmt.Println
+//@ before_stmt [C08,C19] "genCommonFunc(args[1], args[2], builder.TemplateGenFromString)" args[0] == "go"
+//@ before_stmt [C08,C19] "genCommonFunc(args[1], args[2], builder.TsGenFromString)" args[0] == "typescript"
